@@ -145,9 +145,9 @@ theorem run_append (s : St) (a b : List Effect) : run s (a ++ b) = run (run s a)
   simp [run, List.foldl_append]
 
 theorem run_prims (s : St) (cs : List Cmd) :
-    run s (cs.map Effect.prim) = { s with prim := applyCmds s.prim cs } := by
+    run s (cs.map Effect.prim) = { s with prim := applyCmds s.prim cs, applied := s.applied ++ cs } := by
   induction cs generalizing s with
-  | nil => rfl
+  | nil => simp [run, applyCmds]
   | cons c rest ih =>
     simp only [List.map_cons, run, List.foldl_cons] at ih ⊢
     rw [ih]
@@ -157,13 +157,14 @@ theorem run_prims (s : St) (cs : List Cmd) :
 
 structure Bnd (s : St) (c : Ctl) (done : List Cmd) (liveL : List (Nat × List Cmd)) : Prop where
   prim : s.prim = applyCmds [] done
+  appl : s.applied = done
   scan : ∀ more, scanLive (s.wal ++ more) [] none = scanLive more liveL none
   split : ∃ pre, done = pre ++ (liveL.map (·.2)).flatten
   ids : ∀ t ∈ liveL, t.1 < c.tgid
   last : ∀ id, c.lastCommitted = some id → liveL.any (fun t => t.1 = id) = true ∧ ∀ t ∈ liveL, t.1 ≤ id
 
 theorem bnd_init : Bnd {} {} [] [] :=
-  ⟨rfl, fun _ => rfl, ⟨[], rfl⟩, by simp, by intro id h; cases h⟩
+  ⟨rfl, rfl, fun _ => rfl, ⟨[], rfl⟩, by simp, by intro id h; cases h⟩
 
 theorem take_len_add {α} (a b : List α) (i : Nat) : (a ++ b).take (a.length + i) = a ++ b.take i := by
   induction a with
@@ -177,17 +178,19 @@ def Shape (st : St) (all : List Cmd) : Prop :=
   ∃ (liveL : List (Nat × List Cmd)) (pre : List Cmd) (i : Nat),
     liveTGs st.wal = liveL ∧
     st.prim = applyCmds [] (pre ++ ((liveL.map (·.2)).flatten).take i) ∧
+    st.applied = pre ++ ((liveL.map (·.2)).flatten).take i ∧
     all = pre ++ (liveL.map (·.2)).flatten
 
 theorem recover_equiv (st : St) (liveL : List (Nat × List Cmd)) (hl : liveTGs st.wal = liveL)
     (pre : List Cmd) (i : Nat)
-    (hp : st.prim = applyCmds [] (pre ++ ((liveL.map (·.2)).flatten).take i)) :
-    Shape st (pre ++ (liveL.map (·.2)).flatten) := ⟨liveL, pre, i, hl, hp, rfl⟩
+    (hp : st.prim = applyCmds [] (pre ++ ((liveL.map (·.2)).flatten).take i))
+    (ha : st.applied = pre ++ ((liveL.map (·.2)).flatten).take i) :
+    Shape st (pre ++ (liveL.map (·.2)).flatten) := ⟨liveL, pre, i, hl, hp, ha, rfl⟩
 
 /-- replaying the live groups over a crash-shaped primary yields the whole history once -/
 theorem shape_recover {st : St} {all : List Cmd} (h : Shape st all) :
     Equiv (recover st) (applyCmds [] all) := by
-  obtain ⟨liveL, pre, i, hl, hp, hall⟩ := h
+  obtain ⟨liveL, pre, i, hl, hp, _, hall⟩ := h
   unfold recover
   rw [hl, replay_eq_applyCmds, hp, hall]
   exact replay_idem [] pre _ i
@@ -198,7 +201,7 @@ theorem recover_of_bnd {s c done liveL} (h : Bnd s c done liveL) : Shape s done 
     have := h.scan []; simpa [liveTGs, scanLive] using this
   rw [hpre]
   exact recover_equiv s liveL hl pre ((liveL.map (·.2)).flatten.length)
-    (by rw [h.prim, hpre, List.take_length])
+    (by rw [h.prim, hpre, List.take_length]) (by rw [h.appl, hpre, List.take_length])
 
 end Mkts.WalProto
 
@@ -250,8 +253,9 @@ theorem flush_full {s c done liveL} (h : Bnd s c done liveL) (cmds : List Cmd) :
     (run s (flushEffects c.tgid cmds)).acked = s.acked + 1 := by
   rw [flushEffects_eq, run_append, run_walAppends, run_append, run_append, run_prims]
   simp only [run, List.foldl_cons, List.foldl_nil, exec]
-  refine ⟨⟨?_, ?_, ?_, ?_, ?_⟩, by simp⟩
+  refine ⟨⟨?_, ?_, ?_, ?_, ?_, ?_⟩, by simp⟩
   · simp only [h.prim, applyCmds_append]
+  · simp only [h.appl]
   · intro more
     simp only [List.append_assoc]
     rw [h.scan, scan_tgRecs]
@@ -299,13 +303,16 @@ theorem flush_step {s c done liveL} (h : Bnd s c done liveL) (cmds : List Cmd) (
       rw [hpre]
       exact recover_equiv _ liveL hl pre ((liveL.map (·.2)).flatten.length)
         (by show s.prim = _; rw [h.prim, hpre, List.take_length])
+        (by show s.applied = _; rw [h.appl, hpre, List.take_length])
     · right
       simp only [hi, if_false] at hl
       refine ⟨?_, Or.inl rfl⟩
       rw [hpre, List.append_assoc, ← flatten_map_append]
-      refine recover_equiv _ _ hl pre ((liveL.map (·.2)).flatten.length + 0) ?_
-      show s.prim = _
-      rw [h.prim, hpre, flatten_map_append, take_len_add]; simp
+      refine recover_equiv _ _ hl pre ((liveL.map (·.2)).flatten.length + 0) ?_ ?_
+      · show s.prim = _
+        rw [h.prim, hpre, flatten_map_append, take_len_add]; simp
+      · show s.applied = _
+        rw [h.appl, hpre, flatten_map_append, take_len_add]; simp
   · -- all WAL records written
     rw [run_append, run_walAppends]
     have hl : liveTGs (s.wal ++ tgRecs c.tgid cmds) = liveL ++ [(c.tgid, cmds)] := by
@@ -324,12 +331,16 @@ theorem flush_step {s c done liveL} (h : Bnd s c done liveL) (cmds : List Cmd) (
       refine ⟨?_, Or.inl ?_⟩
       · rw [hpre, List.append_assoc, ← flatten_map_append]
         rcases hcases with rfl | rfl
-        · refine recover_equiv _ _ hl pre ((liveL.map (·.2)).flatten.length + 0) ?_
-          show s.prim = _
-          rw [h.prim, hpre, flatten_map_append, take_len_add]; simp
-        · refine recover_equiv _ _ hl pre ((liveL.map (·.2)).flatten.length + 0) ?_
-          show s.prim = _
-          rw [h.prim, hpre, flatten_map_append, take_len_add]; simp
+        · refine recover_equiv _ _ hl pre ((liveL.map (·.2)).flatten.length + 0) ?_ ?_
+          · show s.prim = _
+            rw [h.prim, hpre, flatten_map_append, take_len_add]; simp
+          · show s.applied = _
+            rw [h.appl, hpre, flatten_map_append, take_len_add]; simp
+        · refine recover_equiv _ _ hl pre ((liveL.map (·.2)).flatten.length + 0) ?_ ?_
+          · show s.prim = _
+            rw [h.prim, hpre, flatten_map_append, take_len_add]; simp
+          · show s.applied = _
+            rw [h.appl, hpre, flatten_map_append, take_len_add]; simp
       · rcases hcases with rfl | rfl <;> rfl
     · rw [run_append]
       simp only [run, List.foldl_cons, List.foldl_nil, exec]
@@ -341,29 +352,32 @@ theorem flush_step {s c done liveL} (h : Bnd s c done liveL) (cmds : List Cmd) (
         rw [this]
         refine ⟨?_, Or.inl rfl⟩
         rw [hpre, List.append_assoc, ← flatten_map_append]
-        refine recover_equiv _ _ hl pre ((liveL.map (·.2)).flatten.length + i) ?_
-        show applyCmds s.prim (cmds.take i) = _
-        rw [h.prim, hpre, flatten_map_append, take_len_add, ← applyCmds_append, List.append_assoc]
+        refine recover_equiv _ _ hl pre ((liveL.map (·.2)).flatten.length + i) ?_ ?_
+        · show applyCmds s.prim (cmds.take i) = _
+          rw [h.prim, hpre, flatten_map_append, take_len_add, ← applyCmds_append, List.append_assoc]
+        · show s.applied ++ cmds.take i = _
+          rw [h.appl, hpre, flatten_map_append, take_len_add, List.append_assoc]
       · -- all primary writes done, possibly acknowledged
         have hcases : t3 = [] ∨ t3 = [Effect.ack] := by
           have := (mem_inits [Effect.ack] t3).mpr ht3
           simpa [inits] using this
         have hprims := run_prims { s with wal := s.wal ++ tgRecs c.tgid cmds, walDurable := s.wal ++ tgRecs c.tgid cmds } cmds
         simp only [run] at hprims
-        have hfin : ∀ st : St, st.prim = applyCmds s.prim cmds → st.wal = s.wal ++ tgRecs c.tgid cmds →
-            Shape st (done ++ cmds) := by
-          intro st hp hw
+        have hfin : ∀ st : St, st.prim = applyCmds s.prim cmds → st.applied = s.applied ++ cmds →
+            st.wal = s.wal ++ tgRecs c.tgid cmds → Shape st (done ++ cmds) := by
+          intro st hp hap hw
           rw [hpre, List.append_assoc, ← flatten_map_append]
-          refine recover_equiv st _ (by rw [hw]; exact hl) pre ((liveL.map (·.2)).flatten.length + cmds.length) ?_
-          rw [hp, h.prim, hpre, flatten_map_append, take_len_add, List.take_length, ← applyCmds_append,
-            List.append_assoc]
+          refine recover_equiv st _ (by rw [hw]; exact hl) pre ((liveL.map (·.2)).flatten.length + cmds.length) ?_ ?_
+          · rw [hp, h.prim, hpre, flatten_map_append, take_len_add, List.take_length, ← applyCmds_append,
+              List.append_assoc]
+          · rw [hap, h.appl, hpre, flatten_map_append, take_len_add, List.take_length, List.append_assoc]
         rcases hcases with rfl | rfl
         · simp only [List.append_nil, List.foldl_append]
           rw [hprims]
-          exact ⟨hfin _ rfl rfl, Or.inl rfl⟩
+          exact ⟨hfin _ rfl rfl rfl, Or.inl rfl⟩
         · simp only [List.foldl_append, List.foldl_cons, List.foldl_nil]
           rw [hprims]
-          refine ⟨hfin _ rfl rfl, Or.inr ⟨?_, rfl⟩⟩
+          refine ⟨hfin _ rfl rfl rfl, Or.inr ⟨?_, rfl⟩⟩
           simp [flushEffects, tgRecs]
 
 end Mkts.WalProto
@@ -378,19 +392,21 @@ theorem filter_all_le (liveL : List (Nat × List Cmd)) (id : Nat) (h : ∀ t ∈
   simp [h t ht]
 
 /-- a state with an empty live set recovers to its own primary content -/
-theorem recover_no_live (st : St) (done : List Cmd) (hl : liveTGs st.wal = []) (hp : st.prim = applyCmds [] done) :
-    Shape st done := ⟨[], done, 0, hl, by simpa using hp, by simp⟩
+theorem recover_no_live (st : St) (done : List Cmd) (hl : liveTGs st.wal = []) (hp : st.prim = applyCmds [] done)
+    (ha : st.applied = done) :
+    Shape st done := ⟨[], done, 0, hl, by simpa using hp, by simpa using ha, by simp⟩
 
 theorem checkpoint_full {s c done liveL} (h : Bnd s c done liveL) :
     ∃ liveL', Bnd (run s (checkpointEffects c.lastCommitted)) { c with lastCommitted := none } done liveL' ∧
       (run s (checkpointEffects c.lastCommitted)).acked = s.acked := by
   cases hc : c.lastCommitted with
   | none =>
-    refine ⟨liveL, ⟨h.prim, h.scan, h.split, h.ids, by intro id hid; cases hid⟩, rfl⟩
+    refine ⟨liveL, ⟨h.prim, h.appl, h.scan, h.split, h.ids, by intro id hid; cases hid⟩, rfl⟩
   | some id =>
     have hl := h.last id hc
-    refine ⟨[], ⟨?_, ?_, ⟨done, by simp⟩, by simp, by intro id' hid; cases hid⟩, rfl⟩
+    refine ⟨[], ⟨?_, ?_, ?_, ⟨done, by simp⟩, by simp, by intro id' hid; cases hid⟩, rfl⟩
     · simp [checkpointEffects, run, exec, h.prim]
+    · simp [checkpointEffects, run, exec, h.appl]
     · intro more
       simp only [checkpointEffects, run, List.foldl_cons, List.foldl_nil, exec, List.append_assoc]
       rw [h.scan]
@@ -421,19 +437,20 @@ theorem checkpoint_step {s c done liveL} (h : Bnd s c done liveL) (es : List Eff
       rw [this]
       simp only [scanLive, hl.1, if_true]
       exact filter_all_le liveL id hl.2
-    have hrec : ∀ st : St, st.prim = s.prim → liveTGs st.wal = liveL → Shape st done := by
-      intro st hp hw
+    have hrec : ∀ st : St, st.prim = s.prim → st.applied = s.applied → liveTGs st.wal = liveL → Shape st done := by
+      intro st hp hap hw
       rw [hpre]
       exact recover_equiv st liveL hw pre ((liveL.map (·.2)).flatten.length)
-        (by rw [hp, h.prim, hpre, List.take_length])
+        (by rw [hp, h.prim, hpre, List.take_length]) (by rw [hap, h.appl, hpre, List.take_length])
     simp only [checkpointEffects, inits, List.map_cons, List.map_nil, List.mem_cons, List.mem_nil_iff, or_false] at hmem
     rcases hmem with rfl | rfl | rfl | rfl
-    · exact ⟨hrec _ rfl hlive0, rfl⟩
-    · exact ⟨hrec _ rfl hlive1, rfl⟩
-    · exact ⟨hrec _ rfl hlive1, rfl⟩
-    · refine ⟨recover_no_live _ done ?_ ?_, rfl⟩
+    · exact ⟨hrec _ rfl rfl hlive0, rfl⟩
+    · exact ⟨hrec _ rfl rfl hlive1, rfl⟩
+    · exact ⟨hrec _ rfl rfl hlive1, rfl⟩
+    · refine ⟨recover_no_live _ done ?_ ?_ ?_, rfl⟩
       · simpa [run, exec] using hlive2
       · simp [run, exec, h.prim]
+      · simp [run, exec, h.appl]
 
 theorem rotate_full {s c done liveL} (h : Bnd s c done liveL) :
     Bnd (run s (rotateEffects c.lastCommitted)) { c with lastCommitted := none } done [] ∧
@@ -442,8 +459,9 @@ theorem rotate_full {s c done liveL} (h : Bnd s c done liveL) :
   unfold rotateEffects
   rw [run_append]
   generalize run s (checkpointEffects c.lastCommitted) = s1 at hb hack ⊢
-  refine ⟨⟨?_, ?_, ⟨done, by simp⟩, by simp, by intro id hid; cases hid⟩, ?_⟩
+  refine ⟨⟨?_, ?_, ?_, ⟨done, by simp⟩, by simp, by intro id hid; cases hid⟩, ?_⟩
   · simp [run, exec, hb.prim]
+  · simp [run, exec, hb.appl]
   · intro more
     simp [run, exec, scanLive]
   · simp [run, exec, hack]
@@ -461,11 +479,11 @@ theorem rotate_step {s c done liveL} (h : Bnd s c done liveL) (es : List Effect)
     simp only [inits, List.map_cons, List.map_nil, List.mem_cons, List.mem_nil_iff, or_false] at hmem
     rcases hmem with rfl | rfl | rfl | rfl
     · exact ⟨recover_of_bnd hb, hack⟩
-    · exact ⟨recover_no_live _ done (by simp [run, exec, liveTGs, scanLive]) (by simp [run, exec, hb.prim]),
+    · exact ⟨recover_no_live _ done (by simp [run, exec, liveTGs, scanLive]) (by simp [run, exec, hb.prim]) (by simp [run, exec, hb.appl]),
         by simp [run, exec, hack]⟩
-    · exact ⟨recover_no_live _ done (by simp [run, exec, liveTGs, scanLive]) (by simp [run, exec, hb.prim]),
+    · exact ⟨recover_no_live _ done (by simp [run, exec, liveTGs, scanLive]) (by simp [run, exec, hb.prim]) (by simp [run, exec, hb.appl]),
         by simp [run, exec, hack]⟩
-    · exact ⟨recover_no_live _ done (by simp [run, exec, liveTGs, scanLive]) (by simp [run, exec, hb.prim]),
+    · exact ⟨recover_no_live _ done (by simp [run, exec, liveTGs, scanLive]) (by simp [run, exec, hb.prim]) (by simp [run, exec, hb.appl]),
         by simp [run, exec, hack]⟩
 
 end Mkts.WalProto
